@@ -433,6 +433,14 @@ def _await_descriptor_upload(tor_protocol, onion, progress, await_all_uploads):
             # provides IOnionService
             return onion.hostname == hostname
 
+    def uploaded_matches(address):
+        # older Tors put a placeholder (e.g. UNKNOWN) where the onion
+        # address belongs in UPLOADED events, so only a well-formed
+        # address of some other service rules an event out
+        if re.match('^([a-z2-7]{16}|[a-z2-7]{56})$', address):
+            return hostname_matches('{}.onion'.format(address))
+        return True
+
     def hs_desc(evt):
         """
         From control-spec:
@@ -457,7 +465,7 @@ def _await_descriptor_upload(tor_protocol, onion, progress, await_all_uploads):
             # XXX FIXME I think tor is sending the onion-address
             # properly with these now, so we can use those
             # (i.e. instead of matching to "attempted_uploads")
-            if args[3] in attempted_uploads:
+            if args[3] in attempted_uploads and uploaded_matches(args[1]):
                 confirmed_uploads.add(args[3])
                 log.msg("Uploaded '{}' to '{}'".format(args[1], args[3]))
                 translate_progress(
